@@ -74,6 +74,11 @@ def shapes(tier, seed):
             for vl in ((1, 1), (0, 2), (2, 0)) if q else itertools.product((0, 1, 2), repeat=2):
                 out.append(('creq', (('host', 1), (first, vl[0]), (second, vl[1])), tuple(sorted(['host', n1, n2]))))
                 out.append(('creq', ((first, vl[0]), (second, vl[1]), ('host', 1)), tuple(sorted([n1, n2]) + ['host']) if False else tuple(sorted(['host', n1, n2]))))
+    # header names the crate's own code mentions (string constants of its MIR, regenerated from the current tree): as UNSIGNED extra headers
+    # they must not influence the canonical request any more than any other unsigned header does
+    for name in code_header_names():
+        out.append(('creq', (('host', 1), (name, 1)), ('host',)))
+        out.append(('creq', ((name, 2), ('host', 1)), ('host',)))
     # form folding on: the headers of the request as received are what is signed (content-length / content-type included), although
     # the body is folded away
     for signed in (('content-length', 'content-type', 'host'), ('content-length', 'host'), ('host',)):
@@ -81,6 +86,16 @@ def shapes(tier, seed):
             out.append(('creq-fold', (('host', 1), ('content-length', vl[0])), signed))
             out.append(('creq-fold', (('content-length', vl[0]), ('host', 1), ('content-length', 1)), signed))
     return sorted(set(out), key=repr)
+
+
+def code_header_names(limit=40):
+    import re as _re
+    try:
+        text, _ = engine.dump_mir()
+    except Exception:
+        return []
+    names = sorted(set(_re.findall(r'const "([a-z][a-z0-9]*(?:-[a-z0-9]+)+)"', text)))
+    return [n for n in names if n not in NAMES and n not in ('host', 'authorization')][:limit]
 
 
 def header_byte(ctx, name):
